@@ -21,9 +21,10 @@ class Registry:
     def __init__(self):
         self.instances = []
         self.open = {}
+        self.realloced = set()
 
     def key(self):
-        return [[i['role'], i['open'], i['pos'], i['thread'], i['greg']] for i in self.instances] + [sorted(self.open.items())]
+        return [[i['role'], i['open'], i['pos'], i['thread'], i['greg']] for i in self.instances] + [sorted(self.open.items()), sorted(self.realloced)]
 
     def enabled(self):
         evs = []
@@ -35,8 +36,13 @@ class Registry:
                     evs.append(['msg', c, t, 'greg_recv'])
                 if inst is None or inst['pos'] < len(SCRIPT):
                     evs.append(['msg', c, t, 'next'])
-                if inst is not None:
+                if inst is not None or t == 1:
                     evs.append(['msg', c, t, 'orphan'])
+                if inst is not None and not inst['greg'] and inst['pos'] <= 2 and t == 1:
+                    evs.append(['msg', c, t, 'greg_late'])       # a client that syncs before it asks for the registry
+        for c in CONNS:
+            if c not in self.open and c not in self.realloced:
+                evs.append(['realloc', c])
         for c in DESTROY:
             evs.append(['destroy', c])
         return evs
@@ -57,9 +63,15 @@ def run_hist(hist, check_from=0):
         inf = gdbenv.Inferior()
         out, err = env['out'], env['err']
         o_mark = e_mark = 0
+        dead = False
         for n, ev in enumerate(hist):
             want_out = []
             warn_ok = False
+            if ev[0] == 'realloc':
+                # after its connection was destroyed the program connects again: new wl_connection, same display/client
+                inf.realloc(ev[1])
+                reg.realloced.add(ev[1])
+                continue
             if ev[0] == 'destroy':
                 c = ev[1]
                 if c in reg.open:
@@ -70,7 +82,7 @@ def run_hist(hist, check_from=0):
             else:
                 _, c, t, kind = ev
                 if c not in reg.open:
-                    role = {'greg_sent': False, 'greg_recv': True, 'next': None}[kind]
+                    role = {'greg_sent': False, 'greg_recv': True, 'next': None, 'orphan': None, 'greg_late': False}[kind]
                     inst = {'name': letters.word(len(reg.instances), caps=True), 'role': role, 'open': True, 'pos': 0,
                             'ref': ot.RefConn(), 'thread': t, 'greg': kind != 'next'}
                     reg.open[c] = len(reg.instances)
@@ -92,20 +104,26 @@ def run_hist(hist, check_from=0):
                         inst['pos'] += 1
                     else:
                         sev = ['get_registry']
+                        inst['greg'] = True
                     server = bool(inst['role'])
                     msg, exp = ot.build(sev, inst['ref'], T + n * 100, server_side=server)
                     m = gdbenv.closure_from_print(msg, side='server' if server else 'client', conn=c, thread=t)
                     loc = inf.present(m)
                     want_out.append(('message', inst['name'], exp))
                     warn_ok = inst['role'] is not False and t != inst['thread']
+            if dead:
+                continue       # the implementation already failed: only the reference is advanced, so that it stays complete
             sut.LOG.take()
             try:
-                ret = env['bps'][loc].stop()
+                bp = env['bps'][loc]
+                # GDB does not call stop() of a disabled breakpoint
+                ret = bp.stop() if getattr(bp, 'enabled', True) else False
                 exc = None
             except Exception:
                 v = sut.exc_violation(case, 'connections.escaped', {'step': n, 'event': ev})
                 V.append(v)
-                break
+                dead = True
+                continue
             new_out = sut._lines(out.buffer[o_mark:])
             new_err = sut._lines(err.buffer[e_mark:])
             o_mark, e_mark = len(out.buffer), len(err.buffer)
@@ -140,7 +158,7 @@ def run_hist(hist, check_from=0):
                             continue     # GDB mode stamps messages with the wall clock, not with log times (C03 judges lifespans)
                         V.append(Violation('connections.' + what.split(' ')[0].rstrip('0123456789'), case,
                                            dict(step, what=what, expected=e, observed=o_, shown=l)))
-        if not V:
+        if not V and not dead:
             conns = env['cm'].connections()
             got = [(c.name(), c.is_server(), c.is_open(), len(c.messages())) for c in conns]
             want = [(i['name'], i['role'], i['open'], i['ref'].nmsg) for i in reg.instances]
@@ -182,7 +200,7 @@ def replay_scripts():
         for h in frontier:
             _, reg = run_hist(h, check_from=len(h))
             for ev in reg.enabled():
-                if ev[0] == 'msg' and ev[2] != 1:
+                if (ev[0] == 'msg' and (ev[2] != 1 or ev[3] == 'greg_late')) or ev[0] == 'realloc':
                     continue
                 nxt.append(h + [ev])
         # keep the search small: one representative per registry key
@@ -209,7 +227,7 @@ def replay_scripts():
             else:
                 _, c, t, kind = ev
                 if c not in reg_open:
-                    insts.append({'role': {'greg_sent': False, 'greg_recv': True, 'next': None}[kind], 'pos': 0, 'ref': ot.RefConn()})
+                    insts.append({'role': {'greg_sent': False, 'greg_recv': True, 'next': None, 'orphan': None}[kind], 'pos': 0, 'ref': ot.RefConn()})
                     reg_open[c] = len(insts) - 1
                 inst = insts[reg_open[c]]
                 server = bool(inst['role'])
@@ -233,6 +251,11 @@ def run(run, tier, seed):
     depth = 5 if tier == 'quick' else 7
     res = explore.bfs(expand, depth, seed=seed, bound={'depth': depth, 'addresses': 2, 'threads': 2, 'destroy_targets': 3})
     run.add_part('plugin_bfs', res)
+    # pure depth, no merging: the plugin may keep state the reference registry does not have (a disabled
+    # breakpoint, a cache), which merging on the reference state would hide
+    d_un = 3 if tier == 'quick' else 4
+    res = explore.bfs(expand, d_un, seed=seed, merge=False, bound={'depth': d_un, 'merged': False})
+    run.add_part('plugin_bfs_unmerged', res)
     if tier == 'thorough':
         from .. import gdbreplay
         gdbreplay.replay_part(run, 'C15')
